@@ -125,10 +125,12 @@ def run(ctx: Ctx):
             "edit_distance / prefix_edit_distances run the kernel in the distance modes (no mistakes table, prefix "
             "form only for the prefix variant), normalisation divides by the reference length only on request, "
             "include_eos adds one to both lengths; (S3) the kernel's batch-wide reductions only guard warnings and "
-            "masked, idempotent updates, so a pair's result cannot depend on the other pairs. NOT decided: that the "
-            "row recurrence equals the Levenshtein minimum, independence from post-eos tokens. (S4) the per-prefix table is filled with the padding value at prefix index >= hyp_len + (0 if exclude_last else 1) and only layout operations follow the fill."),
-        decided=["S1", "S2", "S3", "S4"],
-        not_decided=["DP recurrence == Levenshtein distance", "post-eos independence"],
+            "masked, idempotent updates, so a pair's result cannot depend on the other pairs. (S5) the whole kernel is interpreted over exact values "
+            "for a grid of batches (eos in the middle / first / absent, junk after the eos), five cost triples (one beyond any finite stand-in for infinity), both layouts, "
+            "eos / include_eos / norm settings and the per-prefix form, and every pair's result equals a per-pair Levenshtein programme: the recurrence and the "
+            "independence from post-eos tokens are decided ON THAT GRID, not for all lengths. (S4) the per-prefix table is filled with the padding value at prefix index >= hyp_len + (0 if exclude_last else 1) and only layout operations follow the fill."),
+        decided=["S1", "S2", "S3", "S4", "S5"],
+        not_decided=["DP recurrence == Levenshtein distance beyond the interpreted grid (lengths <= 4, 5 pairs)"],
         assumptions=["parameter names and docstring tables as oracle"],
     )
 
@@ -172,8 +174,9 @@ MANIFEST = dict(
         "padding value at prefix index >= hyp_len + (0 if exclude_last else 1) and only layout operations follow the fill; "
         "for equal costs both result forms are rescaled by the common cost exactly once. These are the structural clauses of "
         "C01 ('under the given costs', 'either layout', 'never depends on the other pairs'); equality of the vectorised "
-        "recurrence with the Levenshtein minimum quantifies over tensor values and is not decided."),
+        "recurrence with the Levenshtein minimum is decided by interpreting the whole kernel over exact values on a finite grid of "
+        "batches / costs / options (102 rows against a per-pair oracle), not for all lengths."),
     level_note="Trusted: python ast; formal names / docstring tables as oracle for what each public name computes.",
-    technique="static analysis: argument binding / forwarding completeness, literal mode-table agreement, batch-mixing reduction rule, write-last (def-use) rule for the padding value",
+    technique="static analysis: argument binding / forwarding completeness, literal mode-table agreement, batch-mixing reduction rule, write-last (def-use) rule for the padding value; interpretation of the whole kernel over exact tensor values (syntax tree only, library constants folded from their definitions) compared with a per-pair Levenshtein oracle on a finite grid",
     design_ref="DESIGN.md section 4 C01",
 )
